@@ -13,7 +13,8 @@ BUDGET_NS = 400_000_000     # per extraction call; the repaired collectors need 
 THEOREMS = ["Props.C15.C15_tables_exact", "Props.C15.C15_columns_exact", "Props.C15.C15_functions_exact",
             "Props.C15.C15_tables_qualified_exact", "Props.C15.C15_columns_qualified_exact",
             "Props.C15.C15_no_alias_no_synthetic", "Props.C15.C15_dedup", "Props.C15.C15_collect_visits_linear",
-            "Props.C15.C15_traversal_complete", "Props.C15.C15_collect_visits_exponential_refuted"]
+            "Props.C15.C15_traversal_complete", "Props.C15.C15_collect_visits_exponential_refuted",
+            "Props.C15.C15_explain_query_dropped_refuted"]
 
 # keyword decoys the reference grammar does not contain (niladic keyword functions): oracle only
 KEYWORD_DECOYS = [
